@@ -154,6 +154,8 @@ pub struct StateDump {
     pub bad_state: Option<String>,
     pub writer_queue_len: usize,
     pub manual_compaction_pending: bool,
+    pub needs_compaction: bool,
+    pub shutting_down: bool,
 }
 
 /// Internal transitions recorded for trace validation.
@@ -196,6 +198,20 @@ pub enum Event {
     },
     /// a file was removed by `remove_obsolete_files`
     Delete { path: String },
+    /// a step of the background-work scheduling protocol, recorded inside the critical section
+    /// that performs it: `kind` is "schedule" (the flag was set and a task is about to be sent),
+    /// "start" (the worker entered `compaction_task`) or "finish" (the worker is about to leave
+    /// it, after clearing / re-setting the flag)
+    Sched {
+        kind: &'static str,
+        scheduled: bool,
+        imm: bool,
+        manual: bool,
+        needs_compaction: bool,
+        bad: bool,
+        shutting_down: bool,
+        level0_files: usize,
+    },
 }
 
 static EVENTS: parking_lot::Mutex<Vec<(String, Event)>> = parking_lot::Mutex::new(Vec::new());
